@@ -14,7 +14,7 @@
       (the allocator's counters are C04's subject and are not exposed by a
       store built from a configuration message). *)
 From Coq Require Import List NArith ZArith Bool Arith.
-From BBS Require Import Common.Sx Store.Model Store.Wiring Run.RStore Run.R01 Run.R05.
+From BBS Require Import Common.Sx Store.Model Store.Wiring Run.RStore Run.R01 Run.R05 Run.R08.
 Import ListNotations.
 Open Scope Z_scope.
 
@@ -78,3 +78,9 @@ Definition mon05W (w : world) (es : list op) (obs : sx) : list Z := filter enfor
 
 Definition judge01W (inp obs : sx) : sx := judgeW mon01W inp obs.
 Definition judge05W (inp obs : sx) : sx := judgeW mon05W inp obs.
+
+(** C08W: the quarantine monitor of C08 on the wired store *)
+Definition mon08W (w : world) (es : list op) (obs : sx) : list Z :=
+  let sts := run_states w (init_state (w_cfg w)) es in
+  dedupZ (snd (fold_left (m08_step w) (combine (combine es sts) (sx_list obs)) ([], []))).
+Definition judge08W (inp obs : sx) : sx := judgeW mon08W inp obs.
